@@ -348,6 +348,28 @@ def hand(repo):
     A(text_mutant('c17-padding-guard', OFF_D, 'if sample_len <= end:', 'if sample_len < end:', 0))
     A(text_mutant('c07-online-once-scaled-value', ON_D + 'once_timed_operation.py', 'sample_return = max(sample_return, self.buffer[i])', 'sample_return = max(sample_return, 0.5 * self.buffer[i])'))
     A(text_mutant('c07-online-since-shifted-value', ON_D + 'since_timed_operation.py', 'sample_right = self.buffer_sample_right[i]', 'sample_right = self.buffer_sample_right[i] - 1'))
+    # round-4 rules: nodes stay as parsed, parse() always recognises, names determine nodes, exact lifts, interval helpers
+    A(text_mutant('c10-bounds-written-back-discrete', DTI, "        b = b / sp\n", "        b = b / sp\n        node.begin = b\n"))
+    A(text_mutant('c14-ast-parse-skips-seen-text', 'rtamt/syntax/ast/parser/abstract_ast_parser.py', "        entire_spec = self.modular_spec + self.spec\n",
+                  "        entire_spec = self.modular_spec + self.spec\n        if entire_spec == getattr(self, 'parsed_text', None):\n            return\n        self.parsed_text = entire_spec\n"))
+    A(text_mutant('c02-name-historically-prints-once', 'rtamt/syntax/node/ltl/historically.py', "'historically(' + child.name + ')'", "'once(' + child.name + ')'"))
+    A(text_mutant('c02-name-predicate-drops-operator', 'rtamt/syntax/node/ltl/predicate.py', "'(' + child1.name + ')' + str(self.operator) + '(' + child2.name + ')'",
+                  "'(' + child1.name + ')cmp(' + child2.name + ')'"))
+    A(text_mutant('c02-name-since-drops-left', 'rtamt/syntax/node/ltl/since.py', "'(' + child1.name + ')since(' + child2.name + ')'", "'since(' + child2.name + ')'"))
+    A(text_mutant('c08-period-lifted-before-scaling', DTI, 'sp = Fraction(self.sampling_period * self.ast.U[self.sampling_period_unit])',
+                  'sp = Fraction(self.sampling_period) * self.ast.U[self.sampling_period_unit]'))
+    A(text_mutant('c20-next-shift-keeps-begin', 'rtamt/explanation/ltl/discrete_time/explanations.py', 'op_intervals.append([begin + 1, end + 1])', 'op_intervals.append([begin, end + 1])'))
+    A(text_mutant('c20-prev-not-clipped', 'rtamt/explanation/ltl/discrete_time/explanations.py', """        elif begin <= 0 and end > 0:
+            op_intervals.append([begin, end - 1])""", """        elif begin <= 0 and end > 0:
+            op_intervals.append([begin - 1, end - 1])"""))
+    A(text_mutant('c20-iff-second-operand-connective-polarity', 'rtamt/explanation/ltl/discrete_time/explainer.py',
+                  'self.visit_with_own_polarity(element.children[1], op2_signal, op2_intervals)', 'self.visit(element.children[1], [op2_intervals, flag])', 2))
+    A(text_mutant('c20-own-polarity-swapped', 'rtamt/explanation/ltl/discrete_time/explainer.py', 'self.visit(child, [sat_intervals, True])', 'self.visit(child, [sat_intervals, False])'))
+    A(text_mutant('c20-bounds-in-default-unit-not-samples', 'rtamt/explanation/stl/discrete_time/explainer.py', 'return int(begin / period), int(end / period)', 'return int(begin), int(end)'))
+    A(text_mutant('c13-counter-getter-online-only', 'rtamt/spec/abstract_specification.py', 'counter = counter + self.offline_interpreter.sampling_violation_counter', 'counter = counter + 0'))
+    A(text_mutant('c12-abstract-node-value-equality', 'rtamt/syntax/node/abstract_node.py', "class AbstractNode:\n", "class AbstractNode:\n    def __eq__(self, other):\n        return type(self) is type(other) and self.name == other.name\n\n    def __hash__(self):\n        return hash(self.name)\n\n"))
+    A(text_mutant('c04-timed-once-scan-for-zero-begin', OFF_DENSE, "        sample_return = once_timed_operation(sample, begin, end)\n",
+                  "        if begin == 0:\n            return list(sample)\n        sample_return = once_timed_operation(sample, begin, end)\n"))
     # C02 / C09 / C05 memo of the update visitor
     A(text_mutant('c02-memo-truthiness', 'rtamt/semantics/abstract_online_interpreter.py', 'if node.name in self.visited:', 'if self.visited.get(node.name):', 0))
     return out
@@ -455,6 +477,59 @@ def twins(repo):
         rel = os.path.relpath(p, repo)
         if os.path.basename(rel) != '__init__.py':
             A({'id': 'twin-reformat-%s' % rel.replace('rtamt/', '').replace('/', '.')[:-3], 'kind': 'twin', 'props': list(ALL), 'edits': [(rel, _reformat)]})
+    # round-4 twins: equivalent forms of what the new rules look at
+    A(text_twin('twin-timedonce-name-by-format', 'rtamt/syntax/node/stl/timed_once.py',
+                "'once[' + str(self.begin) + str(self.begin_unit) + ',' + str(self.end) + str(self.end_unit) + '](' + child.name + ')'",
+                "'once[{}{},{}{}]({})'.format(self.begin, self.begin_unit, self.end, self.end_unit, child.name)"))
+    A(text_twin('twin-constant-name-fstring', 'rtamt/syntax/node/ltl/constant.py', "self.name = str(val)", "self.name = f'{val}'"))
+    A(text_twin('twin-setter-loops-over-interpreters', 'rtamt/spec/abstract_specification.py', """        if hasattr(self, 'online_interpreter'):
+            if isinstance(self.online_interpreter, DiscreteTimeInterpreter):
+                self.online_interpreter.set_sampling_period(sampling_period, unit, tolerance)
+            else:
+                RTAMTException('time_unit_transformer() allowed only discrete time')
+
+        if hasattr(self, 'offline_interpreter'):
+            if isinstance(self.offline_interpreter, DiscreteTimeInterpreter):
+                self.offline_interpreter.set_sampling_period(sampling_period, unit, tolerance)
+            else:
+                RTAMTException('time_unit_transformer() allowed only discrete time')
+""", """        for name in ('online_interpreter', 'offline_interpreter'):
+            interpreter = getattr(self, name, None)
+            if isinstance(interpreter, DiscreteTimeInterpreter):
+                interpreter.set_sampling_period(sampling_period, unit, tolerance)
+"""))
+    A(text_twin('twin-ia-conditions-named', 'rtamt/semantics/iastl/discrete_time/online/predicate_operation.py', """        if (self.semantics == Semantics.OUTPUT_ROBUSTNESS and not self.out_vars) or (
+                self.semantics == Semantics.INPUT_ROBUSTNESS and not self.in_vars):""", """        no_outputs = len(self.out_vars) == 0
+        no_inputs = not self.in_vars
+        if (self.semantics == Semantics.OUTPUT_ROBUSTNESS and no_outputs) or (
+                Semantics.INPUT_ROBUSTNESS == self.semantics and no_inputs):"""))
+    A(text_twin('twin-explain-prev-comprehension', 'rtamt/explanation/ltl/discrete_time/explanations.py', """    op_intervals = []
+    for begin, end in intervals:
+        if begin > 0 and end > 0:
+            op_intervals.append([begin - 1, end - 1])
+        elif begin <= 0 and end > 0:
+            op_intervals.append([begin, end - 1])
+    return op_intervals
+""", """    return [[max(begin - 1, 0), end - 1] for begin, end in intervals if end > 0]
+"""))
+    A(text_twin('twin-explain-next-comprehension', 'rtamt/explanation/ltl/discrete_time/explanations.py', """    op_intervals = []
+    for begin, end in intervals:
+        if begin < len(op_signal) - 1 and end < len(op_signal) - 1:
+            op_intervals.append([begin + 1, end + 1])
+        elif begin < len(op_signal) - 1 <= end:
+            op_intervals.append([begin + 1, end])
+    return op_intervals
+""", """    last = len(op_signal) - 1
+    return [[begin + 1, min(end + 1, last)] for begin, end in intervals if begin < last]
+"""))
+    A(text_twin('twin-dense-timed-once-empty-shortcut', OFF_DENSE, "        sample_return = once_timed_operation(sample, begin, end)\n",
+                "        if not sample:\n            return []\n        sample_return = once_timed_operation(sample, begin, end)\n"))
+    A(text_twin('twin-dense-timed-once-point-window', OFF_DENSE, "        sample_return = once_timed_operation(sample, begin, end)\n",
+                "        if begin == 0 and end == 0:\n            return list(sample)\n        sample_return = once_timed_operation(sample, begin, end)\n"))
+    A(text_twin('twin-spec-parse-guarded-by-try', 'rtamt/spec/abstract_specification.py', "    def parse(self):\n        self.ast.parse()\n",
+                "    def parse(self):\n        try:\n            self.ast.parse()\n        finally:\n            pass\n"))
+    A(text_twin('twin-period-helper-parenthesised', 'rtamt/pastifier/stl/horizon.py', 'return Fraction(ast.sampling_period * ast.U[ast.sampling_period_unit]) / ast.U[ast.unit]',
+                'return Fraction(ast.U[ast.sampling_period_unit] * ast.sampling_period) / ast.U[ast.unit]'))
     A({'id': 'twin-reformat-discrete-interpreter', 'kind': 'twin', 'props': list(ALL), 'edits': [('rtamt/semantics/discrete_time_interpreter.py', _reformat)]})
     return out
 
